@@ -81,6 +81,9 @@ func (s *sim) endStateOracle(prefix string) (sig, msg string) {
 		}
 	}
 	for _, wr := range s.w.Writes {
+		if s.excuseWritesOn != nil && s.excuseWritesOn[wr.Host] {
+			continue
+		}
 		if wr.Outcome == vs.WAcked && !mh.Executed.Has(vs.RefKey(wr.Txn.UUID, ""), wr.Txn.Gno) {
 			return prefix + "-acked-write-lost", fmt.Sprintf("write #%d acknowledged by %s at %s (%s:%d) is missing on master %s (executed %s)",
 				wr.ID, wr.Host, wr.At.Format("15:04:05"), wr.Txn.UUID, wr.Txn.Gno, m, vs.GText(mh.Executed))
